@@ -443,7 +443,8 @@ func init() {
 			"Sources H: every hash.Hash Sum / digest result. Caller data B: every parameter of every exported otp function and of every module function without module callers (JS-registered functions, framework-called closures), and the request readers of fasthttp. " +
 			"Memory: inclusion-based field-insensitive points-to over allocation sites, globals and call results; module calls bind arguments, results per index and closure captures through the VTA call graph; calls out of the module use 'result depends on all arguments, reference arguments of non-read-only callees may be written with all arguments'. " +
 			"Obligations: every comparison (== != < <= > >=, hence string equality and switch) with an H operand, every map lookup with an H key, every external call receiving H. Discharged when the other operand is a constant or carries no caller data, or the callee is crypto/subtle.ConstantTimeCompare / hmac.Equal / ConstantTimeEq or a formatting/output sink; violated for ordinary comparisons and known early-exit comparators; undecided for unknown callees. " +
-			"S5: every function of otp/wasm on a path to a constant-time comparison site writes no package-level variable and uses no lock/atomic/goroutine (a remembered verdict or accepted code equals the expected code and would be compared by ordinary means). Floor: in each configuration at least one constant-time comparator must receive H and caller data. Over-approximate (flow- and context-insensitive), so absence of a report means no explicit flow exists.",
+			"S5: every function of otp/wasm on a path to a constant-time comparison site writes no package-level variable and uses no lock/atomic/goroutine (a remembered verdict or accepted code equals the expected code and would be compared by ordinary means). Floor: in each configuration at least one constant-time comparator must receive H and caller data. Over-approximate (flow- and context-insensitive), so absence of a report means no explicit flow exists. " +
+			"S7 also covers the submitted operand: it reaches the comparator whole, not cut at a position computed at run time.",
 		trusted:  []string{"crypto/subtle.ConstantTimeCompare, crypto/hmac.Equal are constant-time", "stdlib summaries: result depends on all arguments", "no reflection in the three packages"},
 		assume:   []string{"micro-architectural timing (table index by HMAC nibble, division latency) is outside the statement", "implicit flows are not tracked: the branches on labelled data are themselves the sinks; S5 closes the one implicit channel that survives a call (state remembered between calls on the comparison path)"},
 		quick:    []Config{CfgNative, CfgWasm},
